@@ -60,7 +60,7 @@ def writer_cases(ctx, n):
             "bits": int(rng.choice([4, 8])), "nant": int(rng.choice([1, 1, 2])), "nch": nch,
             "start_chan": int(rng.integers(0, B // 2 - nch + 1)), "ascending": bool(rng.integers(2)),
             "fch1": float(rng.choice([0.0, 6e9, 1.4204e9])), "blocks": int(rng.integers(1, 5)), "bpf": int(rng.integers(1, 4)),
-            "extra": k % 40,                      # sweeps every header length modulo 32 cards
+            "extra": (k % 40) if k % 9 else 90 + (k % 80),     # sweeps every header length modulo 32 cards; every 9th case a long header (> 128 cards with the template)
             "override": bool(rng.integers(3) == 0), "template": bool(rng.integers(2)),
             "directio": [None, 0, 1, "1", 1][int(rng.integers(5))], "pkt0": [0, 0, 4096][int(rng.integers(3))],
             "seed": int(rng.integers(1 << 30)), "overlap": bool(rng.integers(2)), "prerecord": bool(rng.integers(3) == 0),
